@@ -37,8 +37,10 @@ R(c) == C07Recs[c]
 PlanTDef(u) == TLCEval([c \in 1..NR |->
                  [o |-> ProgPlans(R(c).orig),
                   n |-> IF R(c).has_inl THEN ProgPlans(R(c).inl) ELSE <<>>]])
-ASSUME TablesComputed == TLCSet(1, PlanTDef(0))
-PT(c) == TLCGet(1)[c]
+\* each worker computes the plan tables at its first step (not in an ASSUME: see docs/CONVENTIONS.md)
+ASSUME RegisterInitialised == TLCSet(1, [ready |-> FALSE])
+TablesReady == IF TLCGet(1).ready THEN TRUE ELSE TLCSet(1, [ready |-> TRUE, t |-> PlanTDef(0)])
+PT(c) == TLCGet(1).t[c]
 
 \* ------------------------------------------------------------------ which strategy must run
 EffIter(r) == IF r.iter # "" THEN r.iter ELSE r.mode
@@ -166,7 +168,8 @@ Judge ==
   ELSE JValues(caseIx, inpIx)
 
 Init == caseIx \in 1..NR /\ inpIx = 0
-Next == /\ R(caseIx).status = "ok"
+Next == /\ TablesReady
+        /\ R(caseIx).status = "ok"
         /\ inpIx < Len(R(caseIx).inputs)
         /\ inpIx' = inpIx + 1
         /\ UNCHANGED caseIx
